@@ -7,6 +7,8 @@ package netw
 import (
 	"fmt"
 	"net/http"
+	"os"
+	"path/filepath"
 	"sync"
 	"testing"
 	"time"
@@ -27,10 +29,15 @@ type c19Scenario struct {
 	InitUp  []bool `json:"initUp"`
 	Path    string `json:"path,omitempty"` // health-check path when HTTP (default /health)
 	Sick    bool   `json:"sick,omitempty"` // HTTP only: a server that is down keeps its listener open and answers 500 to everything
+	// Saved: the configuration goes through pike's own save and read (config.Write, config.Read on a
+	// file) before it is applied, as it does when it is edited through the admin page
+	Saved bool `json:"saved,omitempty"`
 }
 
 var (
-	c19Once sync.Once
+	c19CfgOnce sync.Once
+	c19CfgFile string
+	c19Once    sync.Once
 	c19Ups  []*upstreamSrv
 	c19Cl   *http.Client
 	c19Seq  int
@@ -59,6 +66,7 @@ func genC19(t *rapid.T) c19Scenario {
 		sc.Path = rapid.SampledFrom([]string{"/health", "/health", "/", "/ping"}).Draw(t, "path")
 		sc.Sick = rapid.Bool().Draw(t, "sick")
 	}
+	sc.Saved = rapid.IntRange(0, 2).Draw(t, "saved") == 0
 	ne := rapid.IntRange(3, 10).Draw(t, "nEvents")
 	for i := 0; i < ne; i++ {
 		sc.Events = append(sc.Events, rapid.IntRange(0, sc.N-1).Draw(t, "event"))
@@ -88,6 +96,28 @@ func c19Apply(sc c19Scenario, seq int) (string, error) {
 		Upstreams: []config.UpstreamConfig{up},
 		Locations: []config.LocationConfig{{Name: "c19loc", Upstream: "c19up", ProxyTimeout: "5s"}},
 		Servers:   []config.ServerConfig{{Addr: c19Addr, Locations: []string{"c19loc"}, Cache: cacheName}},
+	}
+	if sc.Saved {
+		c19CfgOnce.Do(func() {
+			d, err := os.MkdirTemp(".", "c19-config-")
+			if err == nil {
+				c19CfgFile, _ = filepath.Abs(filepath.Join(d, "pike.yml"))
+			}
+		})
+		if c19CfgFile != "" {
+			_ = os.Remove(c19CfgFile)
+			if err := config.InitDefaultClient(c19CfgFile); err != nil {
+				return "", err
+			}
+			if err := config.Write(cfg); err != nil {
+				return "", err
+			}
+			back, err := config.Read()
+			if err != nil {
+				return "", err
+			}
+			cfg = back
+		}
 	}
 	if err := applyConfig(cfg); err != nil {
 		return "", err
